@@ -657,6 +657,10 @@ func (fr *Frame) bigMethod(b *ssa.BasicBlock, st *State, m string, args []Val, r
 		r := sApp(f, v(1), y)
 		if m == "And" {
 			fc.addFact("true", sImp(sAnd(sApp(">=", v(1), "0"), sApp(">=", v(2), "0")), sAnd(sApp("<=", "0", r), sApp("<=", r, v(1)), sApp("<=", r, v(2)))))
+			// a mask of the form 2^k - 1 (recognised by y + 1 == 2^bitlen(y)) keeps the low k bits: x & y == x mod (y + 1)
+			yy := v(2)
+			fc.addFact("true", sImp(sAnd(sApp(">=", v(1), "0"), sApp(">=", yy, "0"), sEq(sApp("+", yy, "1"), fr.pow2(fr.bitlenOf(yy)))),
+				sEq(r, fr.divTerm("mod", v(1), sApp("+", yy, "1")))))
 		}
 		if m == "Xor" || m == "Or" {
 			fc.addFact("true", sImp(sAnd(sApp(">=", v(1), "0"), sApp(">=", v(2), "0")), sApp("<=", "0", r)))
